@@ -209,6 +209,17 @@ def gen_case(seed, i):
         if subs:
             opts["one_fs"] = True
             opts["mount"] = rng.choice(subs)        # this subtree is presented as another file system
+            inside = [f for f in files if f.startswith(opts["mount"] + "/")]
+            if inside and rng.random() < 0.7:
+                # links that CROSS into that file system: to a file and to a directory in it, placed outside it
+                # ("--one-fs does not follow symbolic links crossing file systems" - files included)
+                outdirs = [d for d in dirs if not (d == opts["mount"] or d.startswith(opts["mount"] + "/")) and "/." not in d] or [roots[0]]
+                d_ = rng.choice(outdirs)
+                t_ = rng.choice(inside)
+                w.add_symlink(d_ + "/l_xdev", "@ROOT@/" + t_)
+                w.add_symlink(d_ + "/l_xdevdir", "@ROOT@/" + opts["mount"])
+                if rng.random() < 0.6:
+                    opts["L"] = True
     rootargs = list(roots)
     r = rng.random()
     at = rng.randint(0, len(rootargs))     # an inner input path may come before or after the one that contains it
